@@ -6,7 +6,7 @@ extern crate alloc;
 /// signature length of public tokens (see l2::signed)
 pub const PUBLIC_SIG_LEN: usize = 96;
 /// see l2::new_secret
-pub const SECRET_SOURCE: u8 = 0;
+pub const SECRET_SOURCE: u8 = 2;
 #[path = "../common/l2.rs"]
 pub mod l2;
 #[macro_use]
